@@ -25,7 +25,7 @@ def fb(x):
     return struct.unpack('<Q', struct.pack('<d', float(x)))[0]
 
 def latitudes(tier):
-    N = 20001 if tier == 'quick' else 1000001
+    N = 20001 if tier == 'quick' else 4000001
     for k in range(N):
         yield -math.pi / 2 + math.pi * k / (N - 1)
     for k in range(1, 3000, 7 if tier == 'quick' else 1):
@@ -67,7 +67,7 @@ def oracle(tier, rng, seeds):
     A = AuthalicProjection()
     fails, st, n = [], {}, 0
     prev = None
-    grid = 20001 if tier == 'quick' else 1000001
+    grid = 20001 if tier == 'quick' else 4000001
     for i, phi in enumerate(latitudes(tier)):
         check_phi(A, phi, fails, st); n += 1
         if i < grid:
